@@ -229,6 +229,10 @@ class Frame:
             return ('const', len(c[1]) > 0)
         if tag in ('len', 'nrows'):
             return T.not_(T.cmp_('Eq', C(0), c))          # a length is true when it is not zero
+        if tag == 'keysand':
+            return T.or_([self.fold(self.compare('In', x, c[1])) for x in c[2][1]])
+        if tag == 'set':
+            return ('const', len(c[1]) > 0)
         if tag == 'table':
             return c
         if tag in ('funcref', 'partial', 'obj'):
@@ -1013,6 +1017,15 @@ class Frame:
                 return Cdec(v.value)
             if n.id in _mutated_globals(self.ctx.model, self.mod):
                 return ('global', self.mod, n.id)        # module-level state some function updates: its content at call time is not the initial display
+            if isinstance(v, ast.Call) and isinstance(v.func, ast.Name) and v.func.id in ('frozenset', 'set', 'tuple', 'list') and len(v.args) == 1 and not v.keywords:
+                try:
+                    items = ast.literal_eval(v.args[0])          # frozenset({...}) / tuple([...]) of constants: a known constant collection
+                    items = sorted(items, key=repr) if v.func.id in ('frozenset', 'set') else list(items)
+                    if all(isinstance(x, (str, int, float, bool)) or x is None for x in items):
+                        tag_ = 'set' if v.func.id in ('frozenset', 'set') else v.func.id
+                        return (tag_, T.sort_terms(C(x) for x in items) if tag_ == 'set' else tuple(C(x) for x in items))
+                except Exception:
+                    pass
             try:
                 ast.literal_eval(v)          # a literal tuple / list / dict of constants: its value is known
                 return self.ex(v)
@@ -1112,6 +1125,11 @@ class Frame:
             return T.mod(a, b)
         if isinstance(op, ast.Pow):
             return T.power(a, b)
+        if isinstance(op, ast.BitAnd) and {a[0], b[0]} & {'keys'} and {a[0], b[0]} & {'set', 'keys'} and a[0] != b[0]:
+            # d.keys() & {k1, k2, ...}: the listed names that are keys of d -- as a value only its emptiness is used (truth()): any(k in d for k in ...)
+            ks, st = (a, b) if a[0] == 'keys' else (b, a)
+            if all(T.isconst(x) for x in st[1]):
+                return ('keysand', ks, st)
         if isinstance(op, ast.BitAnd):
             return T.band([a, b])
         if isinstance(op, ast.BitOr):
